@@ -271,9 +271,28 @@ func runC11(r *Report, rng *rand.Rand, thorough bool) {
 		}
 		var enumVals []any
 		var specVals []string
+		intFormat := ""
 		if base == "integer" {
 			// small values, and values float32 cannot hold (2^24 + 1 and beyond; all below 2^53: the loader reads numbers as float64)
 			pool := []int{-2, -1, 0, 1, 2, 3, 4, 16777216, 16777217, 123456789, 20240229, 4294967297}
+			// every integer format the type table knows, with values the format can hold
+			intFormat = []string{"", "", "int32", "int64", "int8", "int16", "int", "uint", "uint8", "uint16", "uint32", "uint64"}[rng.Intn(12)]
+			switch intFormat {
+			case "int8":
+				pool = []int{-128, -2, -1, 0, 1, 2, 3, 100, 127}
+			case "int16":
+				pool = []int{-32768, -2, -1, 0, 1, 2, 300, 32767}
+			case "int32":
+				pool = []int{-2147483648, -2, -1, 0, 1, 2, 16777217, 2147483647}
+			case "uint8":
+				pool = []int{0, 1, 2, 3, 200, 255}
+			case "uint16":
+				pool = []int{0, 1, 2, 3, 300, 65535}
+			case "uint", "uint32":
+				pool = []int{0, 1, 2, 3, 16777217, 4294967295}
+			case "uint64":
+				pool = []int{0, 1, 2, 3, 16777217, 4294967297}
+			}
 			seen := map[int]bool{}
 			for i := 0; i < 1+rng.Intn(4); i++ {
 				x := pool[rng.Intn(len(pool))]
@@ -306,6 +325,18 @@ func runC11(r *Report, rng *rand.Rand, thorough bool) {
 			}
 		}
 		enumSchema := map[string]any{"type": base, "enum": enumVals}
+		if intFormat != "" {
+			enumSchema["format"] = intFormat
+		}
+		if base == "number" {
+			if f := []string{"", "float", "double"}[rng.Intn(3)]; f != "" {
+				enumSchema["format"] = f
+				r.Dist["number_format="+f]++
+			}
+		}
+		if base == "integer" {
+			r.Dist["integer_format="+intFormat]++
+		}
 		// names given by the document (x-enum-varnames / x-enumNames): distinct names for distinct values
 		names := specVals
 		varKey := ""
